@@ -1319,7 +1319,10 @@ pub fn validate_b64u_text<'a>(
               // Try with lenient decoding: strip last char if we have trailing
               // bits that would be non-zero
               if !cleaned.is_empty() {
-                let without_last = &cleaned[..cleaned.len() - 1];
+                // drop the last character, not the last byte: the text may not be ASCII
+                let mut chars = cleaned.chars();
+                chars.next_back();
+                let without_last = chars.as_str();
                 if let Ok(decoded_bytes) =
                   data_encoding::BASE64URL_NOPAD.decode(without_last.as_bytes())
                 {
@@ -1370,7 +1373,10 @@ pub fn validate_b64c_text<'a>(
             Err(_) => {
               // Try lenient: strip last char for non-zero trailing bits
               if !cleaned.is_empty() {
-                let without_last = &cleaned[..cleaned.len() - 1];
+                // drop the last character, not the last byte: the text may not be ASCII
+                let mut chars = cleaned.chars();
+                chars.next_back();
+                let without_last = chars.as_str();
                 if let Ok(decoded_bytes) =
                   data_encoding::BASE64_NOPAD.decode(without_last.as_bytes())
                 {
